@@ -9,7 +9,8 @@ Streams
            CPython isinstance based, pyanalyze-independent) of one of the Values pyanalyze inferred for the node.
            An expression inferred as Never must not be reached (membership in the empty union is false).
   mini   : (correspondence) programs of the Lean mini-language MiniPy (literals, names, tuple/list displays, literal
-           subscripts, IfExp, `is None` / `is not None` / isinstance tests, not/and/or, assign, if/else, return):
+           subscripts, IfExp, calls to annotated helper functions, `+` on ints/strs; `is None` / `is not None` / `not`
+           tests; assign, unpacking `a, b = e`, `x += e`, if/else, `for x in e:` loops, return):
            pyanalyze's inferred Value per expression node, decoded structurally, vs `Pya.C01.infer` of the Lean driver.
   eval   : (spec validation) the Lean big-step semantics `Pya.C01.exec` of the same programs vs CPython executing them.
   spec   : Lean `mem` vs the Python reference membership on the recorded (value, type) pairs of the mini stream.
@@ -66,9 +67,13 @@ RULE = (
     "(function text, arguments). mini: all MiniPy programs of a small exhaustive family, then seeded random ones."
 )
 ASSUMPTIONS = [
-    "proved stage S1+S2a: soundness of `infer` for the Lean mini-language (straight-line code, expressions, if/else with "
-    "`is None` / isinstance narrowing and truthiness-pruned branches), by induction on the execution; loops, try, match, "
-    "calls, unpacking and the rest of the grammar are covered by the execution search only",
+    "proved stages S1, S2a, S1b, S1c, S3a: soundness of `infer` for the Lean mini-language (expressions incl. helper calls "
+    "and + on ints/strs, assignment, unpacking, +=, if/else with `is None` narrowing, `for` loops with pyanalyze's "
+    "three-visit scheme under the decidable side condition loopNotFix = false), by induction on the program; helper "
+    "functions are assumed to return members of their declared return types (ImplOk); while, break/continue/else, try, "
+    "match, generic/builtin calls, other operators and narrowing forms are covered by the execution search only",
+    "mini semantics: sets/dicts iterate in their representation order; arithmetic on floats / IntEnum members and `+=` on a "
+    "list reached through another name are outside the Lean value semantics (such argument tuples are not compared)",
     "runtime membership oracle: CPython isinstance plus the documented promotions int->float->complex; a TypeVar-typed "
     "value inside a generic function body is not judged; Values that cannot be decoded structurally are counted and skipped",
     "every check-phase visit of a node counts: a runtime value must belong to one of the Values inferred for the node",
@@ -100,6 +105,17 @@ def Un(*ts):
             if m not in out:
                 out.append(m)
     return out[0] if len(out) == 1 else ("union", out)
+
+
+def run_driver(lines):
+    """The Lean driver; one retry after a rebuild (other checks regenerate / rebuild shared modules concurrently, which makes
+    an olean disappear for a moment)."""
+    try:
+        return lean.run_driver("C01", lines)
+    except lean.DriverError:
+        time.sleep(5)
+        lean.build([LEAN_PROP] + LEAN_TARGETS)
+        return lean.run_driver("C01", lines)
 
 
 # ------------------------------------------------------------------ source text of terms
@@ -2066,6 +2082,12 @@ def _test_flag(node, v, fn_node):
         return 0
     if _isfloat_test(node, v):
         return 1
+    for sub in ast.walk(node):
+        if isinstance(sub, ast.Compare) and len(sub.ops) == 1 and isinstance(sub.ops[0], (ast.In, ast.NotIn)) and \
+                isinstance(sub.left, ast.Name) and sub.left.id == v:
+            c = sub.comparators[0]
+            if (isinstance(c, ast.Constant) and isinstance(c.value, str)) or isinstance(c, ast.Name):
+                return 3
     names = {n.id for n in ast.walk(node) if isinstance(n, ast.Name) and isinstance(n.ctx, ast.Load)} - {v}
     assigns = [st for st in ast.walk(fn_node) if isinstance(st, (ast.Assign, ast.AugAssign, ast.AnnAssign)) and st.value is not None]
     grew = True
@@ -2299,10 +2321,11 @@ D_PREDICATES = {
                                                             for b in _subblocks(s) for x in b) and _has_a(s),
     "C02:promote": lambda s: _tflag(s) == 1,
     "unionMemberConstraint": lambda s: _tflag(s) == 2,
+    "strContainment": lambda s: _tflag(s) == 3,
 }
 # (matchExhaustiveLeavesScope and tupleConcat were repaired in /repo — 232b32d, b494820 —: no longer classes, their
 # witnesses stay in corpus/C01.jsonl as regression cases that must pass)
-CLASS_ORDER = ["C02:promote", "unionMemberConstraint", "loopCarriedLiteral", "C09:loopElse", "C09:secondVisitSeed", "C09:loopBreak",
+CLASS_ORDER = ["C02:promote", "unionMemberConstraint", "strContainment", "loopCarriedLiteral", "C09:loopElse", "C09:secondVisitSeed", "C09:loopBreak",
                "C09:jumpThroughFinally", "C09:loopJumpInSuppressing", "C09:nestedLoopJump"]
 
 
@@ -2389,9 +2412,23 @@ class MiniGen:
             return ("sub", base, rng.choice([0, 1, -1, 0, 1, 2, -2, 5]))
         if r < 0.87:
             return ("ite", self.test(defined), self.expr(defined, depth - 1), self.expr(defined, depth - 1))
-        f = rng.randrange(len(MINI_HELPERS))
-        n = MINI_HELPERS[f][1] if rng.random() < 0.95 else 1 + (MINI_HELPERS[f][1] % 2)
-        return ("call", f, [self.expr(defined, depth - 1) for _ in range(n)])
+        if r < 0.93:
+            f = rng.randrange(len(MINI_HELPERS))
+            n = MINI_HELPERS[f][1] if rng.random() < 0.95 else 1 + (MINI_HELPERS[f][1] % 2)
+            return ("call", f, [self.expr(defined, depth - 1) for _ in range(n)])
+        return ("add", self.addend(defined, depth - 1), self.addend(defined, depth - 1))
+
+    def addend(self, defined, depth):
+        rng = self.rng
+        r = rng.random()
+        if r < 0.3:
+            return ("lit", rng.choice([("int", 1), ("int", 5), ("str", "a"), ("bool", 1), ("int", 0), ("str", "")]))
+        nums = [x for x in defined if self.numish.get(x)]
+        if nums and r < 0.7:
+            return ("var", rng.choice(nums))
+        if r < 0.8:
+            return ("call", rng.choice([0, 4, 1]), [("lit", ("int", 0))])
+        return self.expr(defined, depth)
 
     def expr_noite(self, defined, depth):
         e = self.expr(defined, depth)
@@ -2435,6 +2472,7 @@ class MiniGen:
                 else:
                     it = self.expr(defined, 2)
                 self.seqish[x] = False
+                self.numish[x] = False
                 inner = defined + [x]
                 if rng.random() < 0.8:
                     # a simple body: assignments / unpackings without conditional expressions
@@ -2445,6 +2483,7 @@ class MiniGen:
                             nvars[0] += 1
                         e = self.expr_noite(inner, 2)
                         body.append(("asg", y, e))
+                        self.numish[y] = e[0] == "add" or (e[0] == "lit" and e[1][0] in ("int", "str", "bool"))
                         self.seqish[y] = e[0] in ("tup", "lst")
                         if y not in inner:
                             inner.append(y)
@@ -2453,6 +2492,9 @@ class MiniGen:
                     body = [b for b in body if b[0] != "ret"] or [("asg", x, ("var", x))]
                 out.append(("for", x, it, body))
                 # names first bound in the loop (and the loop variable) are only possibly bound afterwards
+            elif r < 0.46 and [x for x in defined if self.numish.get(x)]:
+                x = rng.choice([x for x in defined if self.numish.get(x)])
+                out.append(("aug", x, self.addend(defined, 1)))
             elif r < 0.5:
                 n = rng.choice([1, 2, 2, 3])
                 xs = []
@@ -2475,6 +2517,7 @@ class MiniGen:
                 out.append(("unp", xs, e))
                 for x in xs:
                     self.seqish[x] = False
+                    self.numish[x] = False
                     if x not in defined:
                         defined.append(x)
             else:
@@ -2483,6 +2526,8 @@ class MiniGen:
                     nvars[0] += 1
                 e = self.expr(defined, 3)
                 out.append(("asg", x, e))
+                self.numish[x] = e[0] == "add" or (e[0] == "lit" and e[1][0] in ("int", "str", "bool")) or \
+                    (e[0] == "var" and self.numish.get(e[1], False))
                 self.seqish[x] = e[0] in ("tup", "lst") or (e[0] == "var" and self.seqish.get(e[1], False)) or \
                     (e[0] == "ite" and any(y[0] in ("tup", "lst") or (y[0] == "var" and self.seqish.get(y[1], False)) for y in e[2:]))
                 if x not in defined:
@@ -2494,6 +2539,8 @@ class MiniGen:
         n = rng.choice([1, 2, 2, 3])
         params = [rng.choice(MINI_TYPES) for _ in range(n)]
         self.seqish = {i: any(m[0] in ("seq", "generic") for m in members(t)) for i, t in enumerate(params)}
+        self.numish = {i: all(m in (T(INT), T(STR), T(BOOL)) or (m[0] == "known" and m[1][0] in ("int", "str", "bool")) for m in members(t))
+                       for i, t in enumerate(params)}
         nvars = [n]
         budget = [rng.randint(2, 9)]
         body, d = self.block(list(range(n)), nvars, budget, 2)
@@ -2540,6 +2587,8 @@ def mini_expr_src(e, path, instr):
         s = "%s[%d]" % (mini_expr_src(e[1], path + [0], instr), e[2])
     elif k == "call":
         s = "%s(%s)" % (MINI_HELPERS[e[1]][0], ", ".join(mini_expr_src(x, path + [j], instr) for j, x in enumerate(e[2])))
+    elif k == "add":
+        s = "(%s + %s)" % (mini_expr_src(e[1], path + [0], instr), mini_expr_src(e[2], path + [1], instr))
     else:
         s = "(%s if %s else %s)" % (mini_expr_src(e[2], path + [1], instr), mini_test_src(e[1]), mini_expr_src(e[3], path + [2], instr))
     if instr:
@@ -2559,6 +2608,8 @@ def mini_block_src(stmts, path, ind, instr, out):
             out.append("%sreturn %s" % (p, mini_expr_src(s[1], sp + [0], instr)))
         elif s[0] == "unp":
             out.append("%s%s, = %s" % (p, ", ".join("v%d" % x for x in s[1]), mini_expr_src(s[2], sp + [0], instr)))
+        elif s[0] == "aug":
+            out.append("%sv%d += %s" % (p, s[1], mini_expr_src(s[2], sp + [0], instr)))
         elif s[0] == "for":
             out.append("%sfor v%d in %s:" % (p, s[1], mini_expr_src(s[2], sp + [0], instr)))
             mini_block_src(s[3], sp + [1], ind + 1, instr, out)
@@ -2593,6 +2644,8 @@ def mini_sexp(prog):
             return "(sub %s %d)" % (ex(e[1]), e[2])
         if k == "call":
             return "(" + " ".join(["call", str(e[1])] + [ex(x) for x in e[2]]) + ")"
+        if k == "add":
+            return "(add %s %s)" % (ex(e[1]), ex(e[2]))
         return "(ite %s %s %s)" % (tst(e[1]), ex(e[2]), ex(e[3]))
 
     def st(s):
@@ -2602,6 +2655,8 @@ def mini_sexp(prog):
             return "(ret %s)" % ex(s[1])
         if s[0] == "unp":
             return "(unp (%s) %s)" % (" ".join(str(x) for x in s[1]), ex(s[2]))
+        if s[0] == "aug":
+            return "(aug %d %s)" % (s[1], ex(s[2]))
         if s[0] == "for":
             return "(for %d %s (%s))" % (s[1], ex(s[2]), " ".join(st(x) for x in s[3]))
         return "(if %s (%s) (%s))" % (tst(s[1]), " ".join(st(x) for x in s[2]), " ".join(st(x) for x in s[3]))
@@ -2628,6 +2683,9 @@ def mini_paths(prog, fn_node):
         elif k == "call":
             for j, (x, n) in enumerate(zip(e[2], node.args)):
                 ex(x, n, path + [j])
+        elif k == "add":
+            ex(e[1], node.left, path + [0])
+            ex(e[2], node.right, path + [1])
 
     def blk(stmts, nodes, path):
         for i, (s, n) in enumerate(zip(stmts, nodes)):
@@ -2637,6 +2695,8 @@ def mini_paths(prog, fn_node):
             elif s[0] == "ret":
                 ex(s[1], n.value, sp + [0])
             elif s[0] == "unp":
+                ex(s[2], n.value, sp + [0])
+            elif s[0] == "aug":
                 ex(s[2], n.value, sp + [0])
             elif s[0] == "for":
                 ex(s[2], n.iter, sp + [0])
@@ -2753,11 +2813,13 @@ def mini_stream(ctx, progs, with_model=True):
             for objs in argsets:
                 if "'cls'" in repr(objs):
                     continue  # class objects are subscriptable (dict[0] is a GenericAlias): outside the mini semantics
+                if any(k in repr(objs) for k in ("'flt'", "'cplx'", "'inst'")) and ("'add'" in repr(p["body"]) or "'aug'" in repr(p["body"])):
+                    continue  # arithmetic on floats / IntEnum members: opaque tokens in the Lean object universe
                 if any(k in repr(objs) for k in ("'set'", "'fset'", "'dict'")) and ("'unp'" in repr(p["body"]) or "'for'" in repr(p["body"])):
                     continue  # iteration order of sets / dicts: the Lean semantics fixes the representation order
                 lines.append("run %s (args %s)" % (mini_sexp(p), " ".join(V.obj_sexp(V.canon_obj(o)) for o in objs)))
                 meta.append((p, n, objs))
-        outs = lean.run_driver("C01", lines) if (with_model and lines) else [None] * len(lines)
+        outs = run_driver(lines) if (with_model and lines) else [None] * len(lines)
         mem_lines, mem_meta = [], []
         for (p, n, objs), out in zip(meta, outs):
             case = {"src": mini_src(p, "f"), "args": [repr(V.obj_to_py(o)) for o in objs], "prog": p, "objs": objs}
@@ -2846,6 +2908,8 @@ def mini_stream(ctx, progs, with_model=True):
                     break
                 if ok is False:
                     cls = "literalEqMerge" if "literalEqMerge" in flags else ("C03:noneAssign" if "noneReject" in flags else None)
+                    if "loopNotFix" in flags and not cross_type_equal(v, ts):
+                        cls = "loopCarriedLiteral"
                     if out is None and cross_type_equal(v, ts):
                         cls = "literalEqMerge"   # driver unavailable: the Python reading of the class
                     ctx.candidate({"src": case["src"], "args": case["args"], "node": k, "prog": p, "objs": objs},
@@ -2855,7 +2919,7 @@ def mini_stream(ctx, progs, with_model=True):
             if b0 == 0 and len(ctx.samples) < 3:
                 ctx.sample({"src": case["src"], "args": case["args"], "inferred": impl, "model": model, "flags": flags, "outcome": outcome})
         if with_model and mem_lines:
-            res = lean.run_driver("C01", mem_lines)
+            res = run_driver(mem_lines)
             for (case, v, gt), r in zip(mem_meta, res):
                 ctx.corr("spec")
                 ref = bool(G.member(v, gt))
@@ -2883,6 +2947,8 @@ def conforms_to(cls, f):
         return bool(ts) and all(lit_only(t) for t in ts)
     if cls == "C02:promote":
         return isinstance(val, int) or isinstance(val, float)  # an int / bool (float for complex) dropped by the negative branch
+    if cls == "strContainment":
+        return isinstance(val, str)
     if cls == "setDisplayOrder":
         # only the positions are wrong: every element belongs to some member of the inferred form
         def members_of(t):
@@ -2908,6 +2974,11 @@ def classify_requests(failures, fn_src_of):
         if v is not None:
             line = "cls " + skeleton(fnode, node, v)
             reqs.append((i, line, py_classes(line[4:])))
+            if isinstance(node, ast.Subscript):
+                in_loop = any(isinstance(lp, (ast.For, ast.While)) and any(n is node for n in ast.walk(lp)) and
+                              any(v in _targets(st) for st in ast.walk(lp) if isinstance(st, (ast.Assign, ast.AugAssign, ast.AnnAssign, ast.For)))
+                              for lp in ast.walk(fnode))
+                reqs.append((i, "subl 1 %d" % in_loop, ["loopCarriedSubscript"] if in_loop else []))
         elif isinstance(node, ast.Call) and isinstance(node.func, ast.Name) and node.func.id in ("list", "tuple"):
             ts = f.get("xterms") or []
             seqform = bool(ts) and all(any(m[0] == "seq" for m in (t[1] if t[0] == "union" else [t])) for t in ts)
@@ -2929,7 +3000,7 @@ def classify(ctx, failures, fn_src_of, with_model=True):
     reqs = classify_requests(failures, fn_src_of)
     answers = None
     if with_model and reqs:
-        answers = lean.run_driver("C01", [r[1] for r in reqs])
+        answers = run_driver([r[1] for r in reqs])
     for j, (i, line, mirror) in enumerate(reqs):
         f = failures[i]
         if answers is not None:
@@ -2939,8 +3010,9 @@ def classify(ctx, failures, fn_src_of, with_model=True):
                 ctx.disagree("cls", {"line": line}, mirror, answers[j])
         else:
             ans = mirror or []
-        f["classes"] = ans
-        f["skeleton"] = line
+        f["classes"] = (ans + f.get("classes", [])) if line.startswith("subl") else (f.get("classes", []) + ans)
+        if line.startswith("cls"):
+            f["skeleton"] = line
     for f in failures:
         cs = f.get("classes", [])
         good = [c for c in cs if conforms_to(c, f)]
@@ -3015,6 +3087,8 @@ def mini_from_json(p):
             return ("sub", ex(e[1]), e[2])
         if k == "call":
             return ("call", e[1], [ex(x) for x in e[2]])
+        if k == "add":
+            return ("add", ex(e[1]), ex(e[2]))
         return ("ite", tst(e[1]), ex(e[2]), ex(e[3]))
 
     def tst(t):
@@ -3027,6 +3101,8 @@ def mini_from_json(p):
             return ("ret", ex(s[1]))
         if s[0] == "unp":
             return ("unp", list(s[1]), ex(s[2]))
+        if s[0] == "aug":
+            return ("aug", s[1], ex(s[2]))
         if s[0] == "for":
             return ("for", s[1], ex(s[2]), [st(x) for x in s[3]])
         return ("if", tst(s[1]), [st(x) for x in s[2]], [st(x) for x in s[3]])
@@ -3116,7 +3192,7 @@ def mini_progs(ctx):
 def malformed(ctx):
     bad = ["run (prog) (args)", "cls if:0 [ o", "run (prog ((typed 1)) (asg x (lit (int 1)))) (args (int 1))", "cls zz", "binop 1 1 1", "foo"]
     good = ["cls o u:0 ret", "run (prog ((typed 1)) (ret (var 0))) (args (int 1))"]
-    res = lean.run_driver("C01", bad + good)
+    res = run_driver(bad + good)
     for line, r in zip(bad + good, res):
         ctx.corr("malformed")
         ctx.count(1, malformed=1)
